@@ -164,7 +164,11 @@ class Printer(object):
             m.dfil = new_e - self.e
             self.e = new_e
             self.fil = self.fil + m.dfil
-            self.hw = alg.max_(self.hw, self.fil)
+            if self.decide is not None:
+                # resolve the maximum by a (mostly forced) branch: keeps the terms If-free
+                self.hw = self.fil if self.decide(self.hw <= self.fil) else self.hw
+            else:
+                self.hw = alg.max_(self.hw, self.fil)
         v = c.get("F")
         if v is not None and valid is True:
             self.feed = self.num(v) * self.u
